@@ -26,14 +26,19 @@ def build_exports(ctx):
     defined dynamic function symbols"""
     t = time.time()
     cbuild.build_prdata(ctx.sc, REPO)
-    objs, fl = cbuild.build_lib(ctx.sc, REPO, san=None, extra=['-fPIC', '-fvisibility=hidden'], tag='pic')
-    so = ctx.sc.path('libxrl.so')
-    cbuild.run(['clang-14', '-shared', '-o', so] + objs + ['-lm'])
-    out = cbuild.run(['nm', '-D', '--defined-only', so]).stdout
-    syms = []
-    for l in out.splitlines():
-        f = l.split()
-        if len(f) >= 3 and f[-2] == 'T': syms.append(f[-1])
+    # the headers choose their export / deprecation macros by compiler (`__GNUC__` version tests): the library is linked with BOTH
+    # compilers of this image (gcc is what meson uses by default, clang what the other checks use) and a function counts as exported
+    # only when both builds export it
+    per = {}
+    for cc, tag in (('gcc', 'picgcc'), ('clang-14', 'pic')):
+        objs, fl = cbuild.build_lib(ctx.sc, REPO, san=None, opt='-O0', extra=['-fPIC', '-fvisibility=hidden'], tag=tag, cc=cc)
+        so = ctx.sc.path('libxrl_%s.so' % tag)
+        cbuild.run([cc, '-shared', '-o', so] + objs + ['-lm'])
+        out = cbuild.run(['nm', '-D', '--defined-only', so]).stdout
+        per[cc] = {l.split()[-1] for l in out.splitlines() if len(l.split()) >= 3 and l.split()[-2] == 'T'}
+    syms = sorted(per['gcc'] & per['clang-14'])
+    ctx.notes.append('exported symbols: gcc %d, clang %d, both %d%s' % (len(per['gcc']), len(per['clang-14']), len(syms),
+                     '' if per['gcc'] == per['clang-14'] else '; only one compiler exports: %s' % sorted(per['gcc'] ^ per['clang-14'])[:8]))
     path = ctx.sc.path('exported.txt'); open(path, 'w').write('\n'.join(syms) + '\n')
     ctx.tick('c_build', t)
     return path, len(syms)
